@@ -306,6 +306,7 @@ class TreeShapeAnalysis:
         self.collect = False
         self.inexact_args = set()
         self.untyped = []
+        self.n_mut_sites = 0
         self.called = set()
         self.str_lists = ctx.module_str_lists()
         self._by_name = {}
@@ -372,6 +373,7 @@ class TreeShapeAnalysis:
             raise AnalysisError("tree-shape analysis did not reach a fixed point")
         self.collect = True
         self.findings, self.checked, self.unresolved = [], [], []
+        self.n_mut_sites = 0
         for q in sorted(self.called):
             self.analyse(q)
         return self
@@ -466,6 +468,9 @@ class TreeShapeAnalysis:
                     sub = val[i]
                 self.bind(t, sub, env)
         elif isinstance(target, ast.Attribute):
+            base = self.ev(target.value, env) if not (isinstance(target.value, ast.Name) and target.value.id == "self") else None
+            if isinstance(base, TV):
+                self.mutation(target, f"stores into `.{target.attr}` of a parse tree node ({', '.join(sorted(base.labels()))[:120]})", base.exact)
             if isinstance(target.value, ast.Name) and target.value.id == "self":
                 if val is not None and isinstance(val, (TV, LV)):
                     self.set_field(target.attr, val)
@@ -480,7 +485,9 @@ class TreeShapeAnalysis:
                         self.changed = True
             self.ev(target.value, env)
         elif isinstance(target, ast.Subscript):
-            self.ev(target.value, env)
+            base = self.ev(target.value, env)
+            if isinstance(base, LV) and base.concs is not None:
+                self.mutation(target, "replaces a child of a parse tree node", base.exact)
             self.ev(target.slice, env)
         elif isinstance(target, ast.Starred):
             self.bind(target.value, None, env)
@@ -617,6 +624,10 @@ class TreeShapeAnalysis:
             for t in st.targets:
                 if isinstance(t, ast.Name):
                     self.kill(env, t.id)
+                elif isinstance(t, ast.Subscript):
+                    base = self.ev(t.value, env)
+                    if isinstance(base, LV) and base.concs is not None:
+                        self.mutation(t, "deletes a child of a parse tree node", base.exact)
             return env
         if isinstance(st, (ast.Pass, ast.Global, ast.Nonlocal, ast.Import, ast.ImportFrom)):
             return env
@@ -942,6 +953,12 @@ class TreeShapeAnalysis:
         return self.refine(env, owner, TV(shapes, tv.exact))
 
     # -- expressions -----------------------------------------------------------------------------
+    def mutation(self, node, what, exact):
+        if self.collect:
+            self.n_mut_sites += 1
+            self.findings.append(Finding("MUT", self.cur, ast.unparse(node), f"{what}: the parse tree is shared by every expansion of a macro body and every use of an "
+                                         "argument - a node changed while it is read is read changed the next time")) if exact else self.unresolved.append((self.cur, ast.unparse(node), "MUT"))
+
     def note(self, ok, kind, node, message, exact):
         if not self.collect:
             return
@@ -1213,6 +1230,9 @@ class TreeShapeAnalysis:
                 return None
             if isinstance(recv, LV) and meth in ("copy",):
                 return recv
+            if isinstance(recv, LV) and recv.concs is not None and meth in ("append", "extend", "insert", "pop", "remove", "clear", "sort", "reverse"):
+                self.mutation(node, f"`.{meth}()` on the children of a parse tree node", recv.exact)
+                return None
             # self.method(...) / obj.method(...)
             if isinstance(fn.value, ast.Name) and fn.value.id == "self" and self.cur_cls:
                 qs = self.resolve_self_method(self.cur_cls, meth)
